@@ -11,7 +11,10 @@ use wow_srp::wrath_header as wr;
 
 pub const EXPS: [&str; 3] = ["vanilla", "tbc", "wrath"];
 const SEEDS: [u32; 6] = [0, 1, 0x7FFF_FFFF, 0x8000_0000, 0xFFFF_FFFF, 0xDEAD_BEEF];
-const USERS: [&str; 5] = ["A", "ABCDEFGHIJKLMNOP", "us:er\"x;\\", "12345", "Mixed Case~"];
+const USERS: [&str; 11] = ["A", "ABCDEFGHIJKLMNOP", "us:er\"x;\\", "12345", "Mixed Case~", "1#1", "12#1", "a@b.c", "x y", "N-M_", "12#34#5"];
+/// names that differ from one another only after a separator (or are the part before it): a proof for one is a proof
+/// for that one only
+const RELATED_USERS: [(&str, &str); 8] = [("12#1", "12#2"), ("12#1", "12"), ("1#1", "1"), ("a@b.c", "a@b"), ("a@b.c", "a"), ("x y", "x"), ("N-M_", "N"), ("12#34#5", "12#34")];
 
 fn rnd40(r: &mut StdRng) -> [u8; 40] {
     let mut a = [0u8; 40];
@@ -119,6 +122,14 @@ pub fn run_world(args: &Args) -> (u64, u64) {
                 }
                 let mut t = proof; t[n % 4] ^= m; t[n % 4 + 8] ^= m; t[n % 4 + 16] ^= m; variants.push(t);
                 let mut t = proof; t.reverse(); variants.push(t);
+                {
+                    let rv = crate::util::regroup_variants(&proof);
+                    for v in rv.iter().step_by((rv.len() / 3).max(1)).take(3) {
+                        let mut t = [0u8; 20];
+                        t.copy_from_slice(v);
+                        variants.insert(0, t);
+                    }
+                }
                 let lim = if thorough || n % 3 == 0 { variants.len() } else { 6 };
                 for t in variants.into_iter().take(lim) {
                     if t != proof {
@@ -134,6 +145,10 @@ pub fn run_world(args: &Args) -> (u64, u64) {
             }
             let other_user = if user == "A" { "B" } else { "A" };
             c.world_server(exp, other_user, key, proof, cs, true, Some(*sseed));
+            for (u1, u2) in RELATED_USERS {
+                if u1 == user { c.world_server(exp, u2, key, proof, cs, true, Some(*sseed)); }
+                if u2 == user { c.world_server(exp, u1, key, proof, cs, true, Some(*sseed)); }
+            }
             c.world_server(exp, user, key, proof, cs.wrapping_add(1), true, Some(*sseed));
             c.world_server(exp, user, key, proof, cs.wrapping_sub(1), true, Some(*sseed));
             c.world_server(exp, user, key, proof, cs, true, Some(sseed.wrapping_add(1)));
@@ -282,6 +297,78 @@ pub fn run_stream(args: &Args) -> (u64, u64) {
             stream_dir(&mut c, &mut rng, &mut sv, &mut cl, 100, false);
         }
     }
+    // ONE call of 40 MiB on a clone of each half, and the same bytes through another clone in chunks of 61 441 bytes:
+    // digests of the outputs and the final states must agree (the stream does not depend on the chunking), and three
+    // chunks of the chunked run (first, middle, last) are judged against the specification from their starting state
+    {
+        c.reset("stream-bigcall");
+        let key = rnd40(&mut rng);
+        if let Some((mut cl, mut sv)) = pair(&mut c, exp, "BIG", key, None, rng.gen()) {
+            let n: usize = 40 << 20;
+            let mut data = vec![0u8; n];
+            let mut x: u64 = 0x1234_5678_9ABC_DEF1 ^ args.seed;
+            for ch in data.chunks_mut(8) { x ^= x << 13; x ^= x >> 7; x ^= x << 17; let b8 = x.to_le_bytes(); let l = ch.len(); ch.copy_from_slice(&b8[..l]); }
+            let klen = if exp == "vanilla" { 40 } else { 20 };
+            for (which, dir) in [(0usize, "enc"), (1, "dec"), (1, "enc"), (0, "dec")] {
+                let conn: &mut Conn = if which == 0 { &mut cl } else { &mut sv };
+                let h = if dir == "enc" { conn.he } else { conn.hd };
+                let r = guard(|| {
+                    let chunk = 61_441usize;
+                    let mut big = data.clone();
+                    let mut chunked = data.clone();
+                    let (st_big, st_ch);
+                    let mut samples: Vec<(usize, u8, Vec<u8>, Vec<u8>)> = vec![];   // (offset, carried byte before, in, out)
+                    if dir == "enc" {
+                        let mut e1 = conn.enc_clone().unwrap();
+                        let mut e2 = e1.clone();
+                        e1.encrypt(&mut big);
+                        let nchunks = (n + chunk - 1) / chunk;
+                        for (ci, part) in chunked.chunks_mut(chunk).enumerate() {
+                            let want = ci == 0 || ci == nchunks / 2 || ci + 1 == nchunks;
+                            let before = if want { part[..part.len().min(4096)].to_vec() } else { vec![] };
+                            e2.encrypt(part);
+                            if want { samples.push((ci * chunk, 0, before, part[..part.len().min(4096)].to_vec())); }
+                        }
+                        st_big = e1.state();
+                        st_ch = e2.state();
+                    } else {
+                        let mut d1 = conn.dec_clone().unwrap();
+                        let mut d2 = d1.clone();
+                        d1.decrypt(&mut big);
+                        let nchunks = (n + chunk - 1) / chunk;
+                        for (ci, part) in chunked.chunks_mut(chunk).enumerate() {
+                            let want = ci == 0 || ci == nchunks / 2 || ci + 1 == nchunks;
+                            let before = if want { part[..part.len().min(4096)].to_vec() } else { vec![] };
+                            d2.decrypt(part);
+                            if want { samples.push((ci * chunk, 0, before, part[..part.len().min(4096)].to_vec())); }
+                        }
+                        st_big = d1.state();
+                        st_ch = d2.state();
+                    }
+                    let d_big: [u8; 20] = Sha1::new().chain_update(&big).finalize().into();
+                    let d_ch: [u8; 20] = Sha1::new().chain_update(&chunked).finalize().into();
+                    // the carried byte before each sampled chunk is the ciphertext byte just before it
+                    let cipher: &Vec<u8> = if dir == "enc" { &chunked } else { &data };
+                    for smp in samples.iter_mut() { smp.1 = if smp.0 == 0 { 0 } else { cipher[smp.0 - 1] }; }
+                    (d_big, d_ch, st_big, st_ch, samples)
+                });
+                match r {
+                    Ok((d_big, d_ch, st_big, st_ch, samples)) => {
+                        c.tr.ev(json!({"ev": "BigCall", "h": h, "exp": exp, "dir": dir, "n": n, "dBig": b(&d_big), "dChunked": b(&d_ch),
+                                        "stBig": st_big, "stChunked": st_ch, "res": {"kind": "ok"}}));
+                        if exp != "wrath" {
+                            // the halves are fresh: position = offset mod key length; the first chunk starts in (0, 0)
+                            for (off, pbyte, inp, out) in samples {
+                                c.tr.ev(json!({"ev": "StateChunk", "exp": exp, "dir": dir, "K": b(&key), "cst": {"i": off % klen, "p": pbyte},
+                                                "data": b(&inp), "out": b(&out)}));
+                            }
+                        }
+                    }
+                    Err(m) => c.tr.ev(json!({"ev": "BigCall", "h": h, "exp": exp, "dir": dir, "n": n, "res": panic_res(&m)})),
+                }
+            }
+        }
+    }
     // boundary walk: calls that END exactly on a key-period boundary (20 / 40), on 256, 1024, 65 536 and one byte around them
     {
         c.reset("stream-boundaries");
@@ -344,6 +431,17 @@ pub fn run_stream(args: &Args) -> (u64, u64) {
                 }
                 sc
             };
+            if step % 4 == 2 {
+                // a writer that stops taking bytes (Ok(0)) or fails inside the header, on a CLONE of the sender: the
+                // error is reported (WriteZero / the writer's kind), never swallowed
+                let mut svc = c.clone_conn(&sv);
+                let ws = if step % 8 == 2 { vec![Step::Accept(1 + step % 3), Step::Accept(0)] } else { vec![Step::Accept(2), Step::Err(ErrorKind::WouldBlock)] };
+                c.write_hdr(&mut svc, "server", size, op as u32, &ws, via);
+                c.drop_conn(&svc);
+                let mut clc = c.clone_conn(&cl);
+                c.write_hdr(&mut clc, "client", size & 0xFFFF, 0x1DC, &[Step::Accept(3), Step::Accept(0)], via);
+                c.drop_conn(&clc);
+            }
             let h = if step % 3 == 2 {
                 // through the Write wrapper, the writer taking one to three bytes at a time
                 let before = sv.enc_clone();
@@ -765,6 +863,57 @@ pub fn run_wrathhdr(args: &Args) -> (u64, u64) {
             wrath_deliver(&mut c, &mut rng, &mut cl, &bytes, p, (size, op));
         }
     }
+    // clone_from between two copies of ONE connection at the same stream position: the source is between the two steps of
+    // a long header, the destination saw the same four bytes through the raw decrypt (equal cipher state, other parked
+    // bytes) - the destination then completes the header exactly as the source would
+    {
+        c.reset("wrathhdr-clone-from-pending");
+        if let Some((cl0, mut sv)) = pair(&mut c, "wrath", "PENDING", rnd40(&mut rng), None, 41) {
+            for k in 0..(if thorough { 12u32 } else { 4 }) {
+                let size = 0x1_2345 + k * 0x1_0101;
+                let Some(h) = c.enc_server_hdr(&mut sv, size, 0x0302, "combined") else { break };
+                let mut src = c.clone_conn(&cl0);
+                let mut dst = c.clone_conn(&cl0);
+                // (all clones start where cl0 is: replay the earlier headers of this loop on both)
+                let mut a4 = [0u8; 4];
+                a4.copy_from_slice(&h[..4]);
+                if k % 2 == 1 { c.split(&mut src); c.split(&mut dst); }
+                // an earlier long header leaves other parked bytes in dst
+                c.sent = None;
+                c.wrath_attempt(&mut src, a4, "half");
+                c.call(&mut dst, "dec", &h[..4], "half");
+                c.clone_from_conn(&mut dst, &src);
+                c.sent = Some((size, 0x0302));
+                c.wrath_complete(&mut dst, h[4], "half");
+                c.sent = Some((size, 0x0302));
+                c.wrath_complete(&mut src, h[4], "half");
+                c.sent = None;
+                c.drop_conn(&src);
+                c.drop_conn(&dst);
+                // keep the server's peer in step: one copy that follows the whole stream
+                break;
+            }
+        }
+        // several rounds, each on a fresh pair (the loop above stops after one header per pair)
+        for k in 1..(if thorough { 12u32 } else { 4 }) {
+            let Some((cl0, mut sv)) = pair(&mut c, "wrath", "PENDING", rnd40(&mut rng), None, 41 + k) else { continue };
+            let size = 0x1_2345 + k * 0x1_0101;
+            let Some(h) = c.enc_server_hdr(&mut sv, size, 0x0302, "combined") else { continue };
+            let mut src = c.clone_conn(&cl0);
+            let mut dst = c.clone_conn(&cl0);
+            if k % 2 == 1 { c.split(&mut src); c.split(&mut dst); }
+            let mut a4 = [0u8; 4];
+            a4.copy_from_slice(&h[..4]);
+            c.wrath_attempt(&mut src, a4, "half");
+            c.call(&mut dst, "dec", &h[..4], "half");
+            c.clone_from_conn(&mut dst, &src);
+            c.sent = Some((size, 0x0302));
+            c.wrath_complete(&mut dst, h[4], "half");
+            c.sent = Some((size, 0x0302));
+            c.wrath_complete(&mut src, h[4], "half");
+            c.sent = None;
+        }
+    }
     // consecutive headers with the SAME opcode whose sizes are related: equal modulo 2^16 / 2^15 / 2^8, the previous
     // size again, short and long forms alternating - each header is encoded from its own size, nothing is reused
     {
@@ -1060,6 +1209,9 @@ pub fn run_hdrio(args: &Args) -> (u64, u64) {
             let (len, wkind, sender, opcode): (usize, &str, &mut Conn, u32) = if kind == "client" { (6, "client", &mut cl, op32) } else { (if kind == "serverLong" { 5 } else { 4 }, "server", &mut sv, op16 as u32) };
             let script = build_wscript(len, t);
             c.write_hdr(sender, wkind, size, opcode, &script, via);
+            // the RECEIVING direction of the same object is not touched by a write, failed or not (its state and the
+            // bytes it decrypts next are the specification's)
+            c.call(sender, "dec", &[0x5A, 0xA5, (k % 251) as u8], via);
             // whatever happened to the writer, the next header continues the keystream
             c.write_hdr(sender, wkind, size, opcode, &[], via);
         }
@@ -1124,6 +1276,41 @@ pub fn run_hdrio(args: &Args) -> (u64, u64) {
                     c.drop_conn(&cl); c.drop_conn(&cl2); c.drop_conn(&cl3);
                 }
             }
+        }
+    }
+    // a reader that reports Interrupted hundreds or thousands of times inside one header (and a writer likewise): the
+    // header is still read / written completely
+    for exp in EXPS {
+        c.reset("hdrio-many-interruptions");
+        let Some((mut cl, mut sv)) = pair(&mut c, exp, "INTR", rnd40(&mut rng), None, 17) else { continue };
+        let runs: Vec<usize> = if args.tier == "thorough" { vec![300, 1100, 5000] } else { vec![300, 1100] };
+        for (k, n) in runs.iter().enumerate() {
+            let Some(h) = c.enc_server_hdr(&mut sv, 0x1234 + k as u32, 0x1EE, "half") else { break };
+            let mut sc = vec![];
+            for (j, x) in h.iter().enumerate() {
+                let reps = if j + 1 == h.len() { *n } else { 3 };
+                for _ in 0..reps { sc.push(Step::Intr); }
+                sc.push(Step::Data(vec![*x]));
+            }
+            c.sent = Some((0x1234 + k as u32, 0x1EE));
+            c.read_hdr(&mut cl, "server", &sc, "half");
+            let Some(h) = c.enc_client_hdr(&mut cl, 0x20 + k as u16, 0x0304_0506, "combined") else { break };
+            let mut sc = vec![];
+            for x in h.iter() {
+                for _ in 0..(*n / 6) { sc.push(Step::Intr); }
+                sc.push(Step::Data(vec![*x]));
+            }
+            c.sent = Some((0x20 + k as u32, 0x0304_0506));
+            c.read_hdr(&mut sv, "client", &sc, "combined");
+            c.sent = None;
+            let mut ws = vec![];
+            for _ in 0..*n { ws.push(Step::Intr); }
+            ws.push(Step::Accept(2));
+            for _ in 0..*n { ws.push(Step::Intr); }
+            ws.push(Step::Accept(9));
+            let mut svc = c.clone_conn(&sv);     // (on a clone: nobody reads this header)
+            c.write_hdr(&mut svc, "server", 0x77, 0x1EE, &ws, "half");
+            c.drop_conn(&svc);
         }
     }
     // sequences on ONE object per expansion: related sizes with the same opcode and related opcodes with the same size,
@@ -1408,6 +1595,24 @@ pub fn run_halves(args: &Args) -> (u64, u64) {
         c.call(&mut a, "dec", &w, "combined");
         if i % 6 == 5 { c.reset("unsplit-samekey"); }
     }
+    // a FAILED header write on the combined object (each error kind, at each offset) leaves the receiving direction alone:
+    // the two directions are out of lock step, then the write fails, then both directions are used again
+    c.reset("write-failure-independence");
+    for (i, exp) in EXPS.iter().cycle().take(if args.tier == "thorough" { 36 } else { 12 }).enumerate() {
+        let Some((mut a, mut b2)) = pair(&mut c, exp, "WFAIL", key, None, 1) else { continue };
+        let mut w = vec![0u8; 4 + i];
+        rng.fill_bytes(&mut w);
+        c.call(&mut a, "enc", &w, "combined");
+        c.call(&mut a, "dec", &w[..1 + i % 3], "combined");
+        c.call(&mut b2, "dec", &w, "combined");
+        let kind = [ErrorKind::WouldBlock, ErrorKind::TimedOut, ErrorKind::BrokenPipe, ErrorKind::Other][i % 4];
+        let script = if i % 5 == 4 { vec![Step::Accept(1), Step::Accept(0)] } else { vec![Step::Accept(i % 4), Step::Err(kind)] };
+        c.write_hdr(&mut a, "client", 0x10 + i as u32, 0x1DC, &script, "combined");
+        c.call(&mut a, "dec", &w, "combined");
+        c.write_hdr(&mut b2, "server", 0x20 + i as u32, 0x1EE, &script, "combined");
+        c.call(&mut b2, "dec", &w[..3], "combined");
+        c.call(&mut b2, "enc", &w, "combined");
+    }
     // clone_from between halves of DIFFERENT keys: the destination becomes the source (key included), for every expansion;
     // a vanilla destination can then be re-joined with the source's decrypter
     c.reset("clone-from");
@@ -1433,6 +1638,44 @@ pub fn run_halves(args: &Args) -> (u64, u64) {
             let State::Parts(_, De::V(d_a)) = a.st.clone() else { unreachable!() };
             c.unsplit(&mut b2, Some((a.hd, d_a)));
             c.call(&mut b2, "dec", &w, "combined");
+        }
+    }
+    // clone_from between Wrath halves of two DIFFERENT sessions whose fresh client encrypters agree in (i, j, S[i], S[j]) -
+    // a pair found by a birthday search over 20 000 random keys (input selection; state read from Debug): the destination
+    // becomes the source all the same
+    {
+        c.reset("clone-from-rc4-coincidence");
+        let user = wow_srp::normalized_string::NormalizedString::new("COINCIDE").unwrap();
+        let mut seen: std::collections::HashMap<(u64, u8, u8), [u8; 40]> = std::collections::HashMap::new();
+        let mut hit: Option<([u8; 40], [u8; 40])> = None;
+        for _ in 0..20_000 {
+            let k = rnd40(&mut rng);
+            let (_, cc) = wr::ProofSeed::new().into_client_header_crypto(&user, k, 1);
+            let (e, _d) = cc.split();
+            let st = En::WC(e).state();
+            let (Some(j), Some(sarr)) = (st["j"].as_u64(), st["S"].as_array()) else { break };
+            let i = st["i"].as_u64().unwrap_or(0) as usize;
+            let (si, sj) = (sarr[i % 256].as_u64().unwrap_or(0) as u8, sarr[j as usize % 256].as_u64().unwrap_or(0) as u8);
+            if let Some(prev) = seen.insert((j, si, sj), k) {
+                if prev != k { hit = Some((prev, k)); break; }
+            }
+        }
+        clear_hooks();
+        if let Some((ka, kb)) = hit {
+            if let (Some((mut a, _)), Some((mut b2, mut svb))) = (pair(&mut c, "wrath", "COINCIDE", ka, None, 1), pair(&mut c, "wrath", "COINCIDE", kb, None, 1)) {
+                c.split(&mut a);
+                c.split(&mut b2);
+                c.clone_from_conn(&mut a, &b2);
+                // a is now a copy of b2: what it encrypts is understood by b2's server
+                if let Some(h) = c.enc_client_hdr(&mut a, 8, 0x1DC, "half") {
+                    c.sent = Some((8, 0x1DC));
+                    c.read_hdr(&mut svb, "client", &[Step::Data(h)], "combined");
+                    c.sent = None;
+                }
+                let w = [1u8, 2, 3, 4, 5];
+                c.call(&mut a, "dec", &w, "half");
+                c.call(&mut b2, "enc", &w, "half");
+            }
         }
     }
     // two-thread schedules: each thread owns one half; TLC's schedule is followed in lock-step
